@@ -57,6 +57,9 @@ def _arrays(kind, params, symbolic, rng):
     elif kind == "adjoint":
         for name, vs in params["factors"]:
             real(name, tuple(params["sizes"][v] for v in vs), params["carrier"])
+    elif kind == "plate_adjoint":
+        real("f", (3, params), "log", with_ninf=True)
+        real("g", (3,), "log")
     elif kind == "convert":
         real("x", params["shape"])
     else:
@@ -147,6 +150,21 @@ def _run(kind, params, arrays, rand=None):
                     held += [v for v in bw.values() if isinstance(v, funsor.terms.Funsor)]
                 except Exception:
                     pass
+    elif kind == "plate_adjoint":
+        # adjoint of a plated log-space model z = logsumexp_a(g[a] + sum_i f[a, i]) with impossible (-inf) entries in f
+        from funsor.adjoint import AdjointTape
+        f = Tensor(arrays["f"], OrderedDict(a=Bint[3], i=Bint[params]))
+        g = Tensor(arrays["g"], OrderedDict(a=Bint[3]))
+        held += [f, g]
+        with AdjointTape() as tape:
+            z = (g + f.reduce(ops.add, "i")).reduce(ops.logaddexp, "a")
+        held.append(z)
+        try:
+            adj = tape.adjoint(ops.logaddexp, ops.add, z, (f, g))
+            held += [v for v in adj.values() if isinstance(v, funsor.terms.Funsor)]
+        except (NotImplementedError, AssertionError):
+            pass
+        held.append(g + f.reduce(ops.add, "i"))
     elif kind == "cat_index":
         # a Cat that stays lazy (its parts mention a free real variable), indexed by an integer Tensor
         from funsor import Real
@@ -331,6 +349,8 @@ def instances(tier):
             out.append(("api", "slice_index", (sl, 3, mode)))
     for how in ("lazy", "reflect", "adjoint"):
         out.append(("api", "approximate", how))
+    for n in (2, 3):
+        out.append(("api", "plate_adjoint", n))
     for sizes in ((2, 3), (1, 2, 2)):
         for how in ("scalar", "vector"):
             out.append(("api", "cat_index", (sizes, how)))
